@@ -1,5 +1,5 @@
-(** Model/NNSSyntaxF12.v — checkIPv6 with the repair proposed for finding F12
-    (NOT the code of /repo's working tree; Model/NNSSyntax.v is):
+(** Model/NNSSyntaxF12.v — HISTORICAL: checkIPv6 as it was before commit
+    7bd3a2c (finding F12), i.e. without
 
       -	if l < 3 || 8 < l {
       +	if l < 3 || 9 < l {
@@ -10,33 +10,21 @@
       +		return false
       +	}
 
-    Nine fragments are admitted when the first two or the last two are empty
-    (seven groups and a "::" for a single zero group); the loop needs no
-    change.  Proofs/NNSSyntaxF12.v shows that this variant accepts exactly
-    [valid_AAAA].  With [l = 9] the four index operations cannot fault, so
-    evaluating all of them (Go short-circuits) is the same. *)
+    It rejected seven groups followed by "::" (nine ':'-fragments).  The code
+    of /repo's working tree is [checkIPv6] of Model/NNSSyntax.v; this old
+    function is kept because the proof about the current one goes through
+    it (Proofs/NNSSyntaxIP6.v, then Proofs/NNSSyntaxF12.v). *)
 From Verif Require Import Base.Prelude Model.NNSSyntax.
 Local Open Scope Z_scope.
 
-Definition nine_ok (fragments : list bytes) : outcome bool :=
-  f0 <-! index fragments 0;
-  f1 <-! index fragments 1;
-  f7 <-! index fragments 7;
-  f8 <-! index fragments 8;
-  Halt (negb ((negb (len f0 =? 0) || negb (len f1 =? 0)) &&
-              (negb (len f7 =? 0) || negb (len f8 =? 0)))).
-
-Definition checkIPv6_fixed (data : bytes) : outcome bool :=
+Definition checkIPv6_old (data : bytes) : outcome bool :=
   let l := len data in
   if (l <? 2) || (39 <? l) then Halt false
   else
     fragments <-! std_string_split data 58;
     let l := len fragments in
-    if (l <? 3) || (9 <? l) then Halt false
+    if (l <? 3) || (8 <? l) then Halt false
     else
-      ok9 <-! (if l =? 9 then nine_ok fragments else Halt true);
-      if negb ok9 then Halt false
-      else
       r <-! ipv6_loop fragments l fragments 0 false (repeat 0 8);
       match r with
       | None => Halt false
